@@ -10,7 +10,7 @@ package bandtss
 // group are removed; in any other status the transition is dropped and nothing else changes. Either way the
 // transition record is gone afterwards. Before the execution time, and with no transition, nothing changes.
 //@ func EndBlocker
-//@ may_panic
+//@ may_panic calls
 //@ modifies Store_bandtss, Other
 //@ ensures err == nil
 //@ ensures !(old(keeper.bTransitionHas(Store_bandtss)) && !old(keeper.bTransitionAt(Store_bandtss)).ExecTime.After(ctx.BlockTime())) ==> Store_bandtss == old(Store_bandtss)
@@ -25,7 +25,7 @@ package bandtss
 
 // C02 / C14: the bandtss begin-blocker is the reward allocation, nothing else
 //@ func BeginBlocker
-//@ may_panic
+//@ may_panic calls
 //@ modifies Bank, Other, DistrReceived, DistrAllocated
 //@ requires keeper.bParams(Store_bandtss).RewardPercentage <= 100
 //@ ensures err == nil ==> (forall d Str :: DistrAllocated[d] - old(DistrAllocated)[d] == DistrReceived[d] - old(DistrReceived)[d])
